@@ -2641,7 +2641,7 @@ fn adjust_timestamp_to_timezone<T: ArrowTimestampType>(
     let adjust = |o| {
         let local = as_datetime::<T>(o)?;
         let offset = to_tz.offset_from_local_datetime(&local).single()?;
-        T::from_naive_datetime(local - offset.fix(), None)
+        T::from_naive_datetime(local.checked_sub_offset(offset.fix())?, None)
     };
     let adjusted = if cast_options.safe {
         array.unary_opt::<_, Int64Type>(adjust)
